@@ -39,6 +39,9 @@ type phase struct {
 	// reconfigure before this phase (0 = keep)
 	NewQPS   int32 `json:"new_qps"`
 	NewBurst int32 `json:"new_burst"`
+	// number of spec updates that only touch ANOTHER schema of the cluster, applied before this phase (they must not
+	// start a new window for the observed schema)
+	UnrelatedSyncs int `json:"unrelated_syncs"`
 }
 
 type plan struct {
@@ -81,15 +84,25 @@ func genPlan(t *rapid.T) plan {
 		if i > 0 && rapid.IntRange(0, 3).Draw(t, fmt.Sprintf("phase[%d].reconf", i)) == 0 {
 			ph.NewQPS, ph.NewBurst = genQB(t, fmt.Sprintf("phase[%d]", i))
 		}
+		if i > 0 && rapid.IntRange(0, 2).Draw(t, fmt.Sprintf("phase[%d].unrelated", i)) == 0 {
+			ph.UnrelatedSyncs = rapid.IntRange(1, 3).Draw(t, fmt.Sprintf("phase[%d].unrelatedSyncs", i))
+		}
 		p.Phases = append(p.Phases, ph)
 	}
 	return p
 }
 
-func schema(qps, burst int32) proxyv1alpha1.FlowControl {
-	return proxyv1alpha1.FlowControl{Schemas: []proxyv1alpha1.FlowControlSchema{{Name: "tb", FlowControlSchemaConfiguration: proxyv1alpha1.FlowControlSchemaConfiguration{
-		TokenBucket: &proxyv1alpha1.TokenBucketFlowControlSchema{QPS: qps, Burst: burst}}}}}
+// schema builds a fresh spec object (new pointers, as every informer delivery does): the observed token bucket "tb",
+// a second token bucket and a max-in-flight schema whose values depend on gen (changing gen = an unrelated update).
+func schemaGen(qps, burst int32, gen int32) proxyv1alpha1.FlowControl {
+	return proxyv1alpha1.FlowControl{Schemas: []proxyv1alpha1.FlowControlSchema{
+		{Name: "tb", FlowControlSchemaConfiguration: proxyv1alpha1.FlowControlSchemaConfiguration{TokenBucket: &proxyv1alpha1.TokenBucketFlowControlSchema{QPS: qps, Burst: burst}}},
+		{Name: "other-tb", FlowControlSchemaConfiguration: proxyv1alpha1.FlowControlSchemaConfiguration{TokenBucket: &proxyv1alpha1.TokenBucketFlowControlSchema{QPS: 10 + gen, Burst: 20 + gen}}},
+		{Name: "other-mif", FlowControlSchemaConfiguration: proxyv1alpha1.FlowControlSchemaConfiguration{MaxRequestsInflight: &proxyv1alpha1.MaxRequestsInflightFlowControlSchema{Max: 1 + gen%5}}},
+	}}
 }
+
+func schema(qps, burst int32) proxyv1alpha1.FlowControl { return schemaGen(qps, burst, 0) }
 
 type window struct {
 	qps, burst int32
@@ -115,10 +128,15 @@ func execute(p plan) []window {
 	var out []window
 	cur := window{qps: p.QPS, burst: p.Burst}
 	var lastAfter time.Duration = -1
+	gen := int32(0)
 	for _, ph := range p.Phases {
+		for k := 0; k < ph.UnrelatedSyncs; k++ {
+			gen++
+			ul.Sync(schemaGen(cur.qps, cur.burst, gen)) // only the other schemas change: no new window for "tb"
+		}
 		if ph.NewQPS > 0 && (ph.NewQPS != cur.qps || ph.NewBurst != cur.burst) {
 			out = append(out, cur)
-			ul.Sync(schema(ph.NewQPS, ph.NewBurst))
+			ul.Sync(schemaGen(ph.NewQPS, ph.NewBurst, gen))
 			cur = window{qps: ph.NewQPS, burst: ph.NewBurst}
 			lastAfter = -1
 		}
@@ -226,8 +244,8 @@ func saveReplay(p plan, msg string) {
 }
 
 func TestPropTokenBucketBounds(t *testing.T) {
-	sub := stats.NewSub("token-bucket-plans", "rapid: (qps 1..5000, burst >= qps) and a plan of 1-5 phases (n calls from 1-8 goroutines, pause 0-40 ms, optional reconfiguration to a new (qps, burst)); executed against the real limiter with timestamps around every call; oracle: for every window [before_i, after_j] inside one configuration, #admitted calls completely inside <= burst + qps*T; after a measured idle time t the first min(burst, floor(qps*t)) sequential calls are admitted; non-trivial = the plan has >=1 pause and >=1 refused call; distinct by FNV-64 of the plan")
-	stats.Check(t, stats.N(150, 1500), func(t *rapid.T) {
+	sub := stats.NewSub("token-bucket-plans", "rapid: (qps 1..5000, burst >= qps) and a plan of 1-5 phases (n calls from 1-8 goroutines, pause 0-40 ms, optional reconfiguration to a new (qps, burst), optional 1-3 spec updates that only change OTHER schemas of the cluster and must not start a new window); executed against the real limiter with timestamps around every call; oracle: for every window [before_i, after_j] inside one configuration, #admitted calls completely inside <= burst + qps*T; after a measured idle time t the first min(burst, floor(qps*t)) sequential calls are admitted; non-trivial = the plan has >=1 pause and >=1 refused call; distinct by FNV-64 of the plan")
+	stats.Check(t, stats.N(300, 1500), func(t *rapid.T) {
 		p := genPlan(t)
 		ws := execute(p)
 		sub.Eval()
